@@ -6,6 +6,9 @@
 #[derive(Clone, Debug)]
 pub struct Rng {
     s: [u64; 4],
+    /// index of the run this generator belongs to (0 outside batches); enumerating scenarios
+    /// decode it into a combination instead of drawing one
+    pub run: u64,
 }
 
 fn splitmix(x: &mut u64) -> u64 {
@@ -34,7 +37,7 @@ impl Rng {
             splitmix(&mut x),
             splitmix(&mut x),
         ];
-        Rng { s }
+        Rng { s, run: 0 }
     }
 
     /// Generator for run `run` of scenario `tag` under master seed `seed`.
@@ -42,7 +45,9 @@ impl Rng {
         let mut x = seed ^ fnv(tag.as_bytes()).rotate_left(17);
         let a = splitmix(&mut x);
         let mut y = a ^ run.wrapping_mul(0xD6E8_FEB8_6659_FD93);
-        Rng::new(splitmix(&mut y))
+        let mut r = Rng::new(splitmix(&mut y));
+        r.run = run;
+        r
     }
 
     pub fn next_u64(&mut self) -> u64 {
